@@ -6,7 +6,8 @@ most recent compiler-output analysis is recorded in the ghost globals __failed /
 """
 declare_class("Args")
 fields("Args", test_directory="Str", language="Str", debug="Bool", rerun="Bool", error_filter_patterns="Opt[Str]",
-       transformations="Int", seconds="Opt[Int]", iterations="Opt[Int]", batch="Int", stop_cond="Str", dry_run="Bool")
+       transformations="Int", seconds="Opt[Int]", iterations="Opt[Int]", batch="Int", stop_cond="Str", dry_run="Bool",
+       bugs="Str", name="Str")
 global_var("hephaestus.cli_args", "Args")
 
 dict_record("Stats")                        # per-program stats dictionary (mutable, shared by reference)
@@ -160,7 +161,7 @@ def _(pid: "Int", tid: "Int", compiler: "Compiler", oracle: "Bool") -> "None":
 
 
 @external("sys.exit", noreturn=True)
-def _(code: "Int") -> "None":
+def _(code: "Any") -> "None":
     pass
 
 
@@ -485,3 +486,39 @@ def _(res: "Any") -> "Any":
     use_profile("pool-glue")
     # the statistics of a result set are updated with the number of programs of THAT set (the last batch may be partial)
     site_call("update_stats", "counts-the-programs-of-this-batch", same(arg1, batch))
+
+
+# ---------------------------------------------------------------- argument validation the driver relies on
+@ghost
+def IsDir(fp: "Str") -> "Bool":
+    """ghost view of the file system at start-up: fp is a directory"""
+    pass
+
+
+@ghost
+def ListDir(fp: "Str") -> "Seq[Str]":
+    """ghost view of the file system at start-up: the entries of directory fp"""
+    pass
+
+
+@external("os.path.isdir")
+def _(path: "Str") -> "Bool":
+    ensures("ghost", result == IsDir(path))
+
+
+@external("os.listdir")
+def _(path: "Str") -> "Seq[Str]":
+    ensures("ghost", seq_eq(result, ListDir(path)))
+
+
+load_module("src.args")
+
+
+@contract("src.args.validate_args")
+def _(args: "Args") -> "None":
+    """what _run's preconditions `fresh-session` and `valid-config` rest on: when validate_args returns, the bugs directory
+    has no entry named like the session (so no saved test case of an earlier session can collide with a copytree), and at
+    most one stop condition is set"""
+    use_profile("pool-glue")
+    ensures("no-session-of-that-name", not (IsDir(old(args.bugs)) and old(args.name) in ListDir(old(args.bugs))))
+    ensures("one-stop-condition", not (truthy(old(args.seconds)) and truthy(old(args.iterations))))
